@@ -14,6 +14,7 @@ from .. import uscan
 def run(ctx):
     model = ctx.model
     table = unitspec.prefix_table(ctx, 'C14.R1')
+    unitspec.memoisation_discipline(ctx, 'C14.R3')
     unitspec.parse_quantity_forms(ctx, 'C14.R3')
     n = unitspec.parse_concentration_forms(ctx, 'C14.R3', 'C14.R4')
     floor(ctx, 'concentration forms', n, 30)
